@@ -556,10 +556,10 @@ func grpcExtractErrorFromTrailer(trailers http.Header) *connect.Error {
 	if len(grpcDetails) == 0 {
 		message, err := grpcPercentDecode(grpcMsg)
 		if err != nil {
-			return connect.NewError(
-				connect.CodeInternal,
-				protocolError("invalid grpc-message trailer: %w", err),
-			)
+			// The gRPC specification: a reader must not fail on a message that is
+			// not properly percent-encoded, nor throw it away; at worst the user
+			// receives its raw form. The status is the peer's in any case.
+			message = grpcMsg
 		}
 		return connect.NewWireError(connect.Code(code), errors.New(message))
 	}
